@@ -99,7 +99,12 @@ func (c *Ctx) fieldComp(structT types.Type, i int) string {
 	if _, ok := structT.(*types.Named); !ok {
 		tk = typeKey(structT.Underlying())
 	}
-	key := "F|" + tk + "|" + si.fields[i].name
+	fname := si.fields[i].name
+	if fname == "_" {
+		// blank fields (several per struct are legal, e.g. sync/atomic.Int64) are told apart by position
+		fname = fmt.Sprintf("_%d", i)
+	}
+	key := "F|" + tk + "|" + fname
 	c.regComp(key, arrSort(SInt, si.fields[i].sort))
 	return key
 }
